@@ -376,6 +376,12 @@ class Kernel:
                     self._reply(p, struct.pack("<i", -EAGAIN))
                     continue
                 fid, frame = p.tun_queue.popleft()
+                if isinstance(frame, int):
+                    # injected failure of read() on the tun descriptor (EIO when the interface goes away, EINTR, a
+                    # spurious wake-up with EAGAIN): the descriptor was reported readable, the read returns -1
+                    self.emit("tun_read_error", p.name, errno=frame)
+                    self._reply(p, struct.pack("<i", -frame))
+                    continue
                 p.cause = ("tun", fid)
                 self.emit("tun_read", p.name, id=fid, data=frame)
                 self._reply(p, struct.pack("<i", len(frame)) + frame)
@@ -493,6 +499,14 @@ class Kernel:
             return
         p.tun_queue.append((fid, frame))
         self.emit("tun_offer", pname, id=fid, data=frame)
+        self._poke(p)
+
+    def offer_tun_error(self, pname, errno_):
+        """The next read() on the process's tun descriptor (which select reports readable) fails with errno_."""
+        p = self.procs[pname]
+        if not p.alive():
+            return
+        p.tun_queue.append((None, int(errno_)))
         self._poke(p)
 
     # ------------------------------------------------------------------ run
